@@ -6,6 +6,7 @@ deterministic: ints, strs, lists, tuples, dicts, sets, one namedtuple, one datac
 Module-level so that process-mode executors and sub-schedulers can import it (`props._evallib`).
 """
 import dataclasses
+import threading
 from collections import namedtuple
 from typing import Any
 
@@ -31,6 +32,14 @@ class LibError(Exception):
 
 class LibSubError(LibError):
     pass
+
+
+class BusyError(LibError):
+    """an error that cannot be pickled (it keeps a lock): recorded through the scheduler's fallback"""
+
+    def __init__(self, msg, resource=None):
+        super().__init__(msg)
+        self.resource = resource
 
 
 ERR = {"V": ValueError, "K": KeyError, "L": LibError, "S": LibSubError, "Z": ZeroDivisionError, "T": TypeError}
@@ -91,6 +100,12 @@ def total(xs):
 def raiser(kind, tag):
     CALL_LOG.append(("raiser", kind, tag))
     raise ERR[kind]("%s-%s" % (kind, tag))
+
+
+@task()
+def busy(tag):
+    CALL_LOG.append(("busy", "B", tag))
+    raise BusyError("B-%s" % tag, threading.Lock())
 
 
 @task()
